@@ -110,6 +110,37 @@ fn oracle_info(i: &ServerInfo, complete: bool, ctx: &str, o: &mut Oracle) {
     }
 }
 
+/// Independent decode of the address lists (literal record sizes, endianness and IPv4-mapping
+/// prefix written here, not taken from the crate): the answer of the library must be this.
+fn oracle_list(bs: &[u8], line: &str, o: &mut Oracle) {
+    let mut it = line.split(' ');
+    let kind = it.next().unwrap_or("");
+    let (payload, rec) = match kind {
+        "list5" => (&bs[14..], 6usize),
+        "list6" => (&bs[14..], 18),
+        "list7" => (&bs[17..], 18),
+        _ => return,
+    };
+    let got = line.rsplit(' ').next().unwrap_or("");
+    let mut want: Vec<String> = vec![];
+    for r in payload.chunks_exact(rec) {
+        if rec == 6 {
+            want.push(format!("4:{}:{}", to_hex(&r[..4]), r[4] as u32 + 256 * r[5] as u32));
+        } else {
+            let port = 256 * r[16] as u32 + r[17] as u32;
+            if r[..12] == [0, 0, 0, 0, 0, 0, 0, 0, 0, 0, 0xff, 0xff] {
+                want.push(format!("4:{}:{}", to_hex(&r[12..16]), port));
+            } else {
+                want.push(format!("6:{}:{}", to_hex(&r[..16]), port));
+            }
+        }
+    }
+    let want = list_str(want);
+    if got != want {
+        o.fail("C18/list-decode", format!("datagram={} got={} want={}", to_hex(bs), got, want));
+    }
+}
+
 // ---------------------------------------------------------------------------------------------
 // p
 
@@ -169,6 +200,7 @@ fn run_parse(bs: &[u8], o: &mut Oracle) -> String {
         }
         Ok((line, sub, sub_complete)) => {
             o.count(line.split(' ').next().unwrap_or("?"));
+            oracle_list(bs, &line, o);
             for i in &sub {
                 oracle_info(i, false, "parse", o);
             }
@@ -465,6 +497,34 @@ fn run_sweep(t: &[&str], o: &mut Oracle) -> String {
     }
 }
 
+/// `hp`: whole datagrams through parse_response, hashed
+fn run_sweep_parse(t: &[&str], o: &mut Oracle) -> String {
+    let pre = parse_hex(t[0]).expect("hex");
+    let suf = parse_hex(t[1]).expect("hex");
+    let alpha = parse_hex(t[2]).expect("hex");
+    let maxlen: u32 = t[3].parse().expect("maxlen");
+    let n = alpha.len() as u64;
+    let mut h = FNV_OFFSET;
+    let mut cnt = 0u64;
+    let mut buf: Vec<u8> = vec![];
+    for len in 0..=maxlen {
+        for c in 0..n.pow(len) {
+            buf.clear();
+            buf.extend_from_slice(&pre);
+            for j in 0..len {
+                buf.push(alpha[((c / n.pow(len - 1 - j)) % n) as usize]);
+            }
+            buf.extend_from_slice(&suf);
+            let s = run_parse(&buf, o);
+            h = fnv_bytes(h, s.as_bytes());
+            h = fnv_byte(h, 10);
+            cnt += 1;
+        }
+    }
+    o.add("datagrams_swept", cnt);
+    format!("h {}", h)
+}
+
 fn kind_of_char(k: &str) -> K {
     match k {
         "5" => K::I5,
@@ -537,6 +597,7 @@ impl Runner for R {
             ["p", h] => run_parse(&parse_hex(h).expect("hex"), o),
             ["hs", rest @ ..] if rest.len() == 5 => run_sweep(rest, o),
             ["hc", rest @ ..] if rest.len() == 4 => run_counts(rest, o),
+            ["hp", rest @ ..] if rest.len() == 4 => run_sweep_parse(rest, o),
             [op @ ("m" | "mf" | "mh" | "mfh"), rest @ ..] if !rest.is_empty() => run_merge(op, rest, o),
             _ => "bad-op".to_string(),
         }
@@ -1230,6 +1291,56 @@ impl Domain for D {
             let mut pre = name_pre.to_vec();
             pre.extend(vec![b'x'; fill]);
             writeln!(w, "hs 6 {} {} {} {}", to_hex(&pre), to_hex(b"\0\00\01\01\0"), to_hex(b"a\xc3\xa9\xe2\x82\xac\xf0\x9f\x98\x80"), if thorough { 6 } else { 4 }).unwrap();
+        }
+
+        // ---- master-server kinds in hash form: every payload over boundary alphabets
+        {
+            let all: Vec<u8> = (0..=255u8).collect();
+            let tok = |h: &[u8], lo: usize, hi: usize, rng: &mut Rng| {
+                let mut v = h.to_vec();
+                for b in &mut v[lo..hi] {
+                    *b = rng.next() as u8;
+                }
+                v
+            };
+            // count / count7: every payload of 0..2 bytes (all 65 536 values), longer ones over 4 bytes
+            writeln!(w, "hp {} - {} 2", to_hex(sb::COUNT), to_hex(&all)).unwrap();
+            writeln!(w, "hp {} - {} 2", to_hex(&tok(sb::COUNT_7, 1, 9, &mut rng)), to_hex(&all)).unwrap();
+            writeln!(w, "hp {} - 00017f80ff 5", to_hex(sb::COUNT)).unwrap();
+            // token7: payload lengths 0..6, and every value of our token's first two bytes
+            writeln!(w, "hp {} - 0001807fff 6", to_hex(&tok(sb::TOKEN_7, 3, 7, &mut rng))).unwrap();
+            writeln!(w, "hp 040000 {} {} 2", to_hex(&[0x33, 0x44, 0x05, 1, 2, 3, 4, 5]), to_hex(&all)).unwrap();
+            // list5: records of 6 bytes (address bytes and both port bytes over boundary values),
+            // lengths 0..8 cover the empty list, a partial record, one record, one record + rest
+            writeln!(w, "hp {} - 0001ff 8", to_hex(sb::LIST_5)).unwrap();
+            writeln!(w, "hp {} {} {} 2", to_hex(sb::LIST_5), to_hex(b"\x09\x08"), to_hex(&all)).unwrap();
+            // ports: every value of both port bytes behind a fixed address (endianness)
+            let mut p5 = sb::LIST_5.to_vec();
+            p5.extend_from_slice(&[10, 0, 0, 1]);
+            writeln!(w, "hp {} - {} 2", to_hex(&p5), to_hex(&all)).unwrap();
+            for h in [sb::LIST_6.to_vec(), tok(sb::LIST_7, 1, 9, &mut rng)] {
+                // list6 / list7: the IPv4-mapping prefix with its last two bytes, the address and
+                // the port swept (3^8 datagrams reach exactly one 18-byte record at length 8)
+                let mut p6 = h.clone();
+                p6.extend_from_slice(&sb::IPV4_MAPPING[..10]);
+                writeln!(w, "hp {} - 00ff01 8", to_hex(&p6)).unwrap();
+                // every single-byte deviation from the mapping prefix at each of its 12 positions
+                for pos in 0..12usize {
+                    let mut pre = h.clone();
+                    pre.extend_from_slice(&sb::IPV4_MAPPING[..pos]);
+                    let mut suf = sb::IPV4_MAPPING[pos + 1..].to_vec();
+                    suf.extend_from_slice(&[192, 168, 0, 1, 0x20, 0x6c]);
+                    writeln!(w, "hp {} {} 0001feff 1", to_hex(&pre), to_hex(&suf)).unwrap();
+                }
+                // port bytes, all values; record boundary: 0..3 extra bytes after one record, 17 bytes
+                let mut p = h.clone();
+                p.extend_from_slice(&sb::IPV4_MAPPING);
+                p.extend_from_slice(&[1, 2, 3, 4]);
+                writeln!(w, "hp {} - {} 2", to_hex(&p), to_hex(&all)).unwrap();
+                let mut q = h.clone();
+                q.extend_from_slice(&[0x20, 0x01, 0x0d, 0xb8, 0, 0, 0, 0, 0, 0, 0, 0, 0, 0, 0, 1]);
+                writeln!(w, "hp {} - 0001ff 5", to_hex(&q)).unwrap();
+            }
         }
 
         // ---- the four count fields jointly (every tuple over the boundary values), per kind
